@@ -190,6 +190,7 @@ func subC05(out string, seed uint64, tier string, arg string) {
 	cfgAlt, _ := lint.NewConfigFromString("[e_rsa_fermat_factorization]\nRounds = 3\n[e_subj_contains_html_entities]\n")
 	// targeted histories first: caches keyed by TLD / key material must still be cold
 	targetedHistories(rep, rng, g, tier)
+	sharedBufferHistories(rep, rng, g, objs, tier)
 	var history []*Obj
 	for i := 0; i < nobj && i < len(objs); i++ {
 		o := objs[(i*11+int(seed))%len(objs)]
@@ -638,3 +639,109 @@ func fmtDate(t time.Time) string {
 }
 
 var _ = zlint.Version
+
+// sharedBufferHistories: a caller that reads every object into one re-used buffer. The parsed object keeps slices of
+// that buffer (Raw, RawSubject, extension values …), so after the next read the *previous* object's slices show the
+// new object's bytes — harmless for a linter that is a function of the object it is given, fatal for one that
+// remembers an earlier answer under a key that aliases the input. Objects of one length and layout follow each
+// other: kit certificates whose subject / issuer strings differ in content but not in length, and corpus objects
+// with length-preserving byte edits. Each is linted from the shared buffer and compared with the same bytes linted
+// from a private copy.
+func sharedBufferHistories(rep *Report, rng *RNG, g lint.Registry, objs []*Obj, tier string) {
+	buf := make([]byte, 1<<16)
+	lintShared := func(o *Obj) (*zlint.ResultSet, string, bool) {
+		if len(o.DER) > len(buf) {
+			return nil, "", false
+		}
+		n := copy(buf, o.DER)
+		so := parseObj(o.Kind, o.Name, buf[:n:n])
+		if so == nil {
+			return nil, "", false
+		}
+		rs, p := lintObj(so, g)
+		return rs, p, true
+	}
+	compare := func(o *Obj, what string) {
+		rsS, pS, ok := lintShared(o)
+		if !ok {
+			return
+		}
+		priv := o.reparse()
+		if priv == nil {
+			return
+		}
+		rsP, pP := lintObj(priv, g)
+		rep.Evaluations++
+		rep.count("shared-buffer:" + what)
+		if pS != pP {
+			rep.violate(Violation{"C05", fmt.Sprintf("%s linted from a re-used read buffer panics differently than linted from its own bytes (%q vs %q)", o.Name, pS, pP), "shared-buffer:panic", replayOf(o, nil)})
+			return
+		}
+		if pS != "" || rsS == nil || rsP == nil {
+			return
+		}
+		if d, ok := sameResults(rsP, rsS); !ok {
+			rep.violate(Violation{"C05", fmt.Sprintf("%s linted from a read buffer that held another object before gives a different result than linted from its own bytes: %s", o.Name, d), "shared-buffer:" + lintNameOf(d), replayOf(o, map[string]interface{}{"diff": d})})
+		}
+	}
+	// kit certificates of one layout: same lengths everywhere, different content
+	orgs := []string{"Example Org", " xample Org", "Example Or ", "Example_Org", "EXAMPLE ORG", "Example\tOrg"}
+	cns := []string{"a-b.example.com", "a_b.example.com", "A-B.EXAMPLE.COM", "*.b.example.com", "a-b.example.co ", " -b.example.com"}
+	var kit []*Obj
+	for _, selfIssued := range []bool{false, true} {
+		for _, og := range orgs {
+			for _, cn := range cns {
+				subj := pkixName(cn)
+				subj.Organization = []string{og}
+				subj.Country = []string{"US"}
+				spec := CertSpec{Subject: subj, DNS: []string{"a-b.example.com"}, EKUs: []stdx509.ExtKeyUsage{stdx509.ExtKeyUsageServerAuth},
+					NotBefore: time.Date(2024, 1, 1, 0, 0, 0, 0, time.UTC), NotAfter: time.Date(2024, 6, 1, 0, 0, 0, 0, time.UTC)}
+				if selfIssued {
+					spec.Issuer = subj
+				} else {
+					iss := pkixName("Kit CA 0000000")
+					iss.Organization = []string{orgs[(len(kit)+1)%len(orgs)]}
+					iss.Country = []string{"US"}
+					spec.Issuer = iss
+				}
+				der, err := BuildCert(spec)
+				if err != nil {
+					rep.count("shared-buffer:kit-build-error")
+					continue
+				}
+				if o := parseObj("cert", fmt.Sprintf("kit-layout-%d", len(kit)), der); o != nil {
+					kit = append(kit, o)
+				}
+			}
+		}
+	}
+	rounds := 3
+	if tier == "thorough" {
+		rounds = 12
+	}
+	for r := 0; r < rounds; r++ {
+		for _, i := range rng.Perm(len(kit)) {
+			compare(kit[i], "kit")
+		}
+	}
+	// corpus objects followed by length-preserving edits of themselves
+	nobj := 120
+	if tier == "thorough" {
+		nobj = len(objs)
+	}
+	for i := 0; i < nobj && i < len(objs); i++ {
+		o := objs[(i*5+3)%len(objs)]
+		compare(o, "corpus")
+		for k := 0; k < 4; k++ {
+			der := append([]byte{}, o.DER...)
+			for f := 0; f < 1+rng.Intn(2); f++ {
+				p := rng.Intn(len(der))
+				der[p] ^= byte(1 << uint(rng.Intn(8)))
+			}
+			if m := parseObj(o.Kind, o.Name+"+flip", der); m != nil {
+				compare(m, "flip")
+				compare(o, "corpus-again")
+			}
+		}
+	}
+}
